@@ -138,7 +138,7 @@ func c13Observe(out *bytes.Buffer, bnd *soy.Bundle, entry string, d map[string]r
 		fmt.Fprintf(out, "RENDER %s %s %q\n", e, errClass(rerr), got)
 	}
 	// generated JavaScript per file, keyed by file name
-	tr := translationsFor(reg)
+	tr := translationsEmptying(reg)
 	var js []string
 	for _, sf := range reg.SoyFiles {
 		for _, mode := range []string{"es5", "es6", "es5+msgs", "es6+msgs"} {
